@@ -184,6 +184,45 @@ def run(ck: Checker, prog: Program, tier: str):
                      loc=cli.loc(sm))
     else:
         ck.ok("C19.R3", "cli.cli", f"starmap({w.name}, ...)")
+    # the chunk size handed to the pool is a whole number (a float makes the pool's task slicing fail or hang for batches of at
+    # least as many files as workers): integer literals, len(), int(), //, +, -, * and max / min of such
+    cs_arg = kwarg(sm, "chunksize") or (sm.args[2] if len(sm.args) > 2 else None)
+    if cs_arg is not None:
+        int_names = set()
+        for st_ in own_nodes(cli.node):
+            if isinstance(st_, ast.Assign) and len(st_.targets) == 1 and isinstance(st_.targets[0], ast.Name):
+                v_ = st_.value
+                if isinstance(v_, ast.IfExp):
+                    okk = all(_whole(x, int_names) or (isinstance(x, ast.Subscript)) for x in (v_.body, v_.orelse))
+                else:
+                    okk = _whole(v_, int_names)
+                if okk:
+                    int_names.add(st_.targets[0].id)
+        if _whole(cs_arg, int_names):
+            ck.ok("C19.R3", "cli.cli", f"chunksize={unparse(cs_arg)} is a whole number", nontrivial=False)
+        else:
+            ck.violation("C19.R3", "cli.cli", f"chunksize={unparse(cs_arg)[:60]}", f"the chunk size `{unparse(cs_arg)}` is not a whole number by construction (true division?): "
+                         f"multiprocessing cannot slice the task list with it - a batch with at least as many files as workers produces no result", loc=cli.loc(sm))
+    # an option the user leaves out means what the library means by leaving it out: the declared defaults of the distribution
+    # options are the defaults of the writer they are handed to
+    wr = prog.func("object_io.write_hvsr_object_to_file")
+    wd = wr.defaults()
+    n_opt = 0
+    for deco in cli.node.decorator_list:
+        if not (isinstance(deco, ast.Call) and call_name(deco) == "option" and deco.args and isinstance(deco.args[0], ast.Constant) and isinstance(deco.args[0].value, str)):
+            continue
+        oname = deco.args[0].value.lstrip("-").replace("-", "_")
+        if oname not in wd or not oname.startswith("distribution"):
+            continue
+        n_opt += 1
+        dv = kwarg(deco, "default")
+        lib = wd[oname]
+        if dv is not None and isinstance(dv, ast.Constant) and isinstance(lib, ast.Constant) and dv.value == lib.value:
+            ck.ok("C19.R3", "cli.cli", f"--{oname} defaults to {lib.value!r} like the writer", nontrivial=False)
+        else:
+            ck.violation("C19.R3", "cli.cli", f"default of --{oname}", f"the option --{oname} defaults to {unparse(dv) if dv is not None else None} while "
+                         f"write_hvsr_object_to_file defaults to {unparse(lib)}: without the option the file differs from what the library pipeline writes", loc=cli.loc(deco))
+    ck.floor("C19.R3", n_opt, 2, "distribution options of the command line")
     z = sm.args[1] if len(sm.args) > 1 else None
     rd = reaching(cli)
     # the task iterable: zip(files, repeat(a), repeat(b), repeat(c)) or [(file, a, b, c) for file in files]
@@ -259,6 +298,26 @@ def run(ck: Checker, prog: Program, tier: str):
 PATH_VALIDATION_ONLY = {"exists", "file_okay", "dir_okay", "readable", "writable", "executable", "allow_dash"}
 #: keyword arguments that rewrite the string (absolute path, resolved links, another type)
 PATH_REWRITING = {"resolve_path", "path_type"}
+
+
+def _whole(e: ast.AST, ints) -> bool:
+    """The expression is an int whatever the data: literals, len / int / os.cpu_count, names known to be whole, and + - * // max min of such."""
+    if isinstance(e, ast.Constant):
+        return isinstance(e.value, int) and not isinstance(e.value, bool)
+    if isinstance(e, ast.Name):
+        return e.id in ints
+    if isinstance(e, ast.Call):
+        nm = call_name(e)
+        if nm in ("int", "len", "cpu_count", "ceil", "floor", "trunc") or (nm == "round" and len(e.args) == 1):
+            return True
+        if nm in ("max", "min") and e.args and not e.keywords:
+            return all(_whole(a, ints) for a in e.args)
+        return False
+    if isinstance(e, ast.BinOp) and isinstance(e.op, (ast.Add, ast.Sub, ast.Mult, ast.FloorDiv, ast.Mod)):
+        return _whole(e.left, ints) and _whole(e.right, ints)
+    if isinstance(e, ast.IfExp):
+        return _whole(e.body, ints) and _whole(e.orelse, ints)
+    return False
 
 
 def _always_writes(ck: Checker, prog: Program, w):
